@@ -188,10 +188,26 @@ def _safe(v):
 
 
 def _in_repo(tb):
+    """True when the exception was raised by the package itself (innermost frame in ECAgent) or by a
+    library the package called (innermost frame outside /verif with an ECAgent frame beneath it).
+    An exception raised by harness code - even inside a System.execute called by the scheduler - is a
+    harness error, never a violation."""
     pkg = os.path.join(REPO, "ECAgent") + os.sep
-    for fs in traceback.extract_tb(tb):
-        if os.path.realpath(fs.filename).startswith(pkg):
+    frames = traceback.extract_tb(tb)
+    if not frames:
+        return False
+    inner = os.path.realpath(frames[-1].filename)
+    if inner.startswith(pkg):
+        return True
+    if inner.startswith(VERIF + os.sep):
+        return False
+    # library frame: attribute it to whichever of package / harness called into it last
+    for fs in reversed(frames):
+        f = os.path.realpath(fs.filename)
+        if f.startswith(pkg):
             return True
+        if f.startswith(VERIF + os.sep):
+            return False
     return False
 
 
@@ -200,6 +216,12 @@ def execute(mod, scenario, keep_trace=False):
     Never raises for a violation; raises HarnessError for machinery failures."""
     ctx = Ctx(keep_trace=keep_trace)
     viol = None
+    # The ambient generators belong to the simulator: every run starts from the same ambient state, so that
+    # code which (wrongly) draws from them still behaves reproducibly and its failure replays exactly.
+    random.seed(0xEC4A6E47)
+    np = sys.modules.get("numpy")
+    if np is not None:
+        np.random.seed(20260927)
     try:
         mod.execute(scenario, ctx)
     except Violation as v:
